@@ -70,7 +70,8 @@ def rule_unix_build(ctx, prog):
     c = mm[0]
     facts = b.facts_at(c.pos)
     fixed_ok = any(r[0] == 'cmp' and r[1] == 'Eq' and r[3] == ('const', 0) and match(BIN("BitAnd", F(P(1), "flags"), K(MAP_FIXED)), r[2], {}) for r in facts)
-    raw_ok = any(r[0] == 'bool' and r[2] is False and match(C("Option::is_some", F(P(1), "raw_ptr")), r[1], {}) for r in facts)
+    raw_ok = any(r[0] == 'bool' and r[2] is False and match(C("Option::is_some", F(P(1), "raw_ptr")), r[1], {}) for r in facts) or \
+        any(r[0] == 'discr' and r[2] == 0 and match(F(P(1), "raw_ptr"), r[1], {}) for r in facts)
     ctx.ob("R15.1.map_fixed_rejected", b.key, fixed_ok, c.where(), f"mmap is dominated by (self.flags & MAP_FIXED) == 0: {fixed_ok}")
     ctx.ob("R15.1.raw_path_separate", b.key, raw_ok, c.where(), "mmap only on the raw_ptr.is_none() path")
     # MapFixed error outcome
@@ -124,7 +125,16 @@ def rule_unix_build(ctx, prog):
     br = prog.one(adt="mmap::unix::MmapRegionBuilder", name="build_raw")
     for pos, t in br.return_terms():
         fs = br.facts_at(pos)
-        mask = BIN("BitAnd", C("Option::unwrap", F(P(1), "raw_ptr")), BIN("Sub", C("libc::sysconf", ANY), K(1)))
+        # the pointer is self.raw_ptr: read inside build_raw, or handed in by build() (then every call site must pass exactly that)
+        ptr_pats = [C("Option::unwrap", F(P(1), "raw_ptr"))]
+        for k in range(2, br.arg_count + 1):
+            if br.local_ty(k).k == 'ptr':
+                sites = [(cb, c2) for cb in prog.bodies for c2 in cb.calls() if (c2.target or "") == br.id]
+                if sites and all(unref(c2.arg(0))[:2] == ('param', 1) and
+                                 (match(OKP(F(P(1), "raw_ptr")), c2.arg(k - 1), {}) or match(C("Option::unwrap", F(P(1), "raw_ptr")), c2.arg(k - 1), {}))
+                                 for cb, c2 in sites):
+                    ptr_pats.append(P(k))
+        mask = BIN("BitAnd", ALT(*ptr_pats), BIN("Sub", C("libc::sysconf", ANY), K(1)))
         if err_variant(t) == "InvalidPointer":
             ok = any(r[0] == 'cmp' and r[1] == 'Ne' and r[3] == ('const', 0) and match(mask, r[2], {}) for r in fs)
             ctx.ob("R15.2.raw_alignment", br.key, ok, br.where(), "Err(InvalidPointer) iff (addr & (page_size - 1)) != 0")
@@ -267,8 +277,9 @@ def rule_xen(ctx, prog):
     # ---- MmapXen::new outcome table
     b = prog.one(adt="mmap::xen::MmapXen", name="new")
     n_err = 0
-    for pos, t in b.return_terms():
-        if err_variant(t) == "MmapFlags":
+    from .. import outcomes as _oc
+    for o in _oc.outcomes(prog, effects.Effects(prog), b):
+        if err_variant(o[1]) == "MmapFlags":
             n_err += 1
     ctx.ob("R15.1.xen_flag_rejections", b.key, n_err == 2, b.where(), f"{n_err} Err(MmapFlags) returns (unknown bits; !is_valid)")
     for nm in ("MmapXenForeign::new", "MmapXenGrant::new", "MmapXenUnix::new"):
